@@ -26,18 +26,24 @@ def explore_histories(make_world, alphabet, max_depth, roots, on_transition, exp
         hist = frontier.popleft()
         w = make_world()
         viol = []
+        skip = False
         try:
             for i, op in enumerate(hist):
                 v = w.apply(op)
                 if i == len(hist) - 1:
                     viol = v
                 elif v:
-                    # a prefix that violates is never extended, so this cannot happen
-                    raise AssertionError(f'violating prefix was extended: {hist!r}')
-            key = w.canon()
-            summary = w.summary() if hasattr(w, 'summary') else None
+                    # a violating prefix is never extended by this search; it can only be met in a root history handed in
+                    # by the caller (sharding by first operations) - the shard owning the prefix reports it
+                    skip = True
+                    break
+            if not skip:
+                key = w.canon()
+                summary = w.summary() if hasattr(w, 'summary') else None
         finally:
             w.close()
+        if skip:
+            continue
         transitions += 1
         deepest = max(deepest, len(hist))
         on_transition(hist, key, viol, summary)
